@@ -683,7 +683,8 @@ impl<'c, E: TElemT> TInterp<'c, E> {
     fn drain_op(&mut self, frac: u64, cont: u64) -> Result<(), Bad> {
         let total = self.model.len();
         let prefix = frac_to(frac, total);
-        let cont = if cont % 2 == 0 { 5 } else { 0 };
+        // dropped early, or consumed by next / fold / for_each / count
+        let cont = if cont % 2 == 0 { 5 } else { [0, 1, 2, 4][((frac >> 3) % 4) as usize] };
         if prefix > 0 && prefix < total && cont == 5 {
             self.labels |= dump::L_DRAIN_CUT;
         }
@@ -823,8 +824,12 @@ impl<'c, E: TElemT> TInterp<'c, E> {
     }
 
     fn get_many_op(&mut self, a: &[u64; crate::case::MAX_ARGS]) -> Result<(), Bad> {
-        let n = (a[0] % 5) as usize;
-        let keys: Vec<(u32, u64)> = (0..n).map(|i| self.key(a[1 + i])).collect();
+        let mut n = (a[0] % 5) as usize;
+        if n == 4 && a[1] % 3 == 0 {
+            // a long request list: 9 or 12 keys derived from the four arguments
+            n = if a[2] % 2 == 0 { 9 } else { 12 };
+        }
+        let keys: Vec<(u32, u64)> = (0..n).map(|i| self.key(a[1 + i % 4].wrapping_add((i / 4) as u64 * 7))).collect();
         // a[5]: equality mode. 0 = exact (id, hash); 1 = by id only (may match several entries)
         // (differential runs use exact closures only: which of several matching entries an id-only
         // closure resolves to may legitimately differ between the scanner back-ends)
@@ -882,7 +887,9 @@ impl<'c, E: TElemT> TInterp<'c, E> {
             1 => call!(1),
             2 => call!(2),
             3 => call!(3),
-            _ => call!(4),
+            4 => call!(4),
+            9 => call!(9),
+            _ => call!(12),
         };
         match r {
             Err(p) => {
